@@ -638,10 +638,15 @@ func wifEncode(fam string, ver byte, key []byte, compr, checkPub bool) string {
 		if !compr {
 			pub = p.SerializeUncompressed()
 		}
-		want := refaddr.Base58CheckEncode(append([]byte{ver - 0x80}, refaddr.Hash160(pub)...))
-		if !bytesEq(pa.BtcAddr.Pubkey, pub) || pa.BtcAddr.String() != want {
-			w["gocoin_pubkey"], w["ref_pubkey"], w["gocoin_addr"], w["ref_addr"] = hex.EncodeToString(pa.BtcAddr.Pubkey), hex.EncodeToString(pub), pa.BtcAddr.String(), want
-			violation("wif-address-mismatch/"+fam, "address / public key attached to a private key differs from the model", w)
+		if !bytesEq(pa.BtcAddr.Pubkey, pub) {
+			// which public key belongs to a private key is C14's subject (known root cause there:
+			// pubkey-parity/*); C15 judges the encoding of whatever key gocoin attached
+			count("wif_pubkey_differs_from_model(observation, C14 subject)")
+		}
+		want := refaddr.Base58CheckEncode(append([]byte{ver - 0x80}, refaddr.Hash160(pa.BtcAddr.Pubkey)...))
+		if pa.BtcAddr.String() != want {
+			w["gocoin_pubkey"], w["gocoin_addr"], w["ref_addr"] = hex.EncodeToString(pa.BtcAddr.Pubkey), pa.BtcAddr.String(), want
+			violation("wif-address-mismatch/"+fam, "address attached to a private key is not the P2PKH encoding of the attached public key", w)
 		}
 	}
 	return refStr
